@@ -38,12 +38,8 @@ def setup(ex: Exec, ch: Choices, info: dict[str, Any]) -> None:
             rows = w.hquery("SELECT id, ref_id FROM stage_executions WHERE execution_id = ? ORDER BY id", (ex.wf_id,))
             if rows:
                 r = rows[ch.pick("inj.stage", len(rows))]
-                prev = w.ctx.get(0, ("idle", ""))
-                w.ctx[0] = ("inject", "")
-                try:
+                with w.as_client("inject"):
                     w.queue.push(StartStage(execution_type="PIPELINE", execution_id=ex.wf_id, stage_id=r["id"]))
-                finally:
-                    w.ctx[0] = prev
                 w.fault("injected_startstage")
                 info["stats"]["injected_startstage"] += 1
 
